@@ -183,6 +183,20 @@ def run(chk):
                 add("%s[%s]" % (src, lit_string(k)), w, b)
                 add("%s.%s" % (src, k), w, b)
                 add("%s in %s" % (lit_string(k), src), "OK " + vb(k in final), b)
+    # keys spelled like functions, macros and types: the stored value wins in m.k as in m[k] (literal, bound and mixed maps)
+    for ks in [["size", "map", "type"], ["min", "max", "string", "filter"], ["has", "int", "contains", "coalesce", "all"],
+               ["sort", "timestamp", "exists", "reduce", "double"]]:
+        pairs = [(k, ('int', i + 1)) for i, k in enumerate(ks)]
+        final = dict(pairs)
+        src_m = "{" + ", ".join("%s: %s" % (lit_string(k), lit(v)) for k, v in pairs) + "}"
+        src_mix = "{" + ", ".join("%s: %s" % (lit_string(k), ("x%d" % i) if i == 0 else lit(v)) for i, (k, v) in enumerate(pairs)) + "}"
+        bv = [("x%d" % i, tok(v)) for i, (k, v) in enumerate(pairs)]
+        bm = [("m", tok(('map', final)))]
+        for src, b in ((src_m, []), (src_mix, bv), ("m", bm), ("{'in': m}['in']", bm), ("[m][0]", bm)):
+            for k in ks:
+                add("%s.%s" % (src, k), "OK " + tok(final[k]), b)
+                add("%s[%s]" % (src, lit_string(k)), "OK " + tok(final[k]), b)
+                add("%s.%s == %s[%s]" % (src, k, src, lit_string(k)), "OK " + vb(True), b)
     for s in ["", "aé", "hello"]:
         add("size(%s)" % lit_string(s), "OK " + vu(len(s.encode())))
         add("x.size()", "OK " + vu(len(s.encode())), [("x", vs(s))])
